@@ -39,9 +39,9 @@ def _fmt(a) -> str:
             if tag == "lv":
                 return f"{a[1]}#{a[2]}"
             if tag == "attr":
-                return f"{_fmt(a[1])}.{a[2]}"
+                return f"{_paren(a[1])}.{a[2]}"
             if tag == "sub":
-                return f"{_fmt(a[1])}[{', '.join(_fmt(x) for x in a[2])}]"
+                return f"{_paren(a[1])}[{', '.join(_fmt(x) for x in a[2])}]"
             if tag == "call":
                 args = [_fmt(x) for x in a[2]]
                 if len(a) > 3:
@@ -59,6 +59,13 @@ def _fmt(a) -> str:
     if isinstance(a, Fraction):
         return str(a)
     return str(a)
+
+
+def _paren(x):
+    s = _fmt(x)
+    if isinstance(x, P) and x.as_atom() is None and not x.is_const():
+        return "(" + s + ")"
+    return s
 
 
 def _mono_mul(m1, m2):
